@@ -2058,7 +2058,11 @@ class Parallel(Logger):
             self._original_iterator = iterator
             if hasattr(pre_dispatch, "endswith"):
                 pre_dispatch = eval_expr(pre_dispatch.replace("n_jobs", str(n_jobs)))
-            self._pre_dispatch_amount = pre_dispatch = int(pre_dispatch)
+            # At least one task has to be pre-dispatched: the following ones
+            # are only dispatched by the completion callbacks, so a value (or
+            # an expression such as '0.4*n_jobs') evaluating to 0 would make
+            # the call return without running any task.
+            self._pre_dispatch_amount = pre_dispatch = max(int(pre_dispatch), 1)
 
             # The main thread will consume the first pre_dispatch items and
             # the remaining items will later be lazily dispatched by async
